@@ -139,6 +139,9 @@ pub fn run(args: &Args) {
 			history::<Vec<u8>>(&mut cx, &mut rng, &|r| { let k = r.below(5) as usize; r.bytes(k) }, "Vec<u8>", 4);
 			history::<()>(&mut cx, &mut rng, &|_| (), "unit", 6);
 			history::<S1>(&mut cx, &mut rng, &|r| S1 { a: r.byte(), b: r.next() as u32 }, "derived", 4);
+			// zero-sized in memory, one byte on the wire
+			history::<crate::universe::Unit1>(&mut cx, &mut rng, &|_| crate::universe::Unit1::Only, "zst-with-wire-byte", 5);
+			history::<(crate::universe::Unit1, ())>(&mut cx, &mut rng, &|_| (crate::universe::Unit1::Only, ()), "zst-tuple-with-wire-byte", 3);
 		}
 		// counts on and around every prefix-width boundary
 		for b in [63u32, 64, (1 << 14) - 1, 1 << 14, (1 << 30) - 1, 1 << 30, u32::MAX - 1, u32::MAX] {
